@@ -161,7 +161,7 @@ class Model:
         else:
             items = [(k[0], k[1], e[0], self.fresh(k, e)) for k, e in self.cache.items()]
             # most recently used first, like LRUCache.items(); the unbounded cache has no order
-            cache = tuple(reversed(items)) if self.size > 0 else tuple(sorted(items))
+            cache = tuple(reversed(items)) if self.size > 0 else tuple(sorted(items, key=repr))
         return (stores, self.active, cache)
 
 
@@ -260,6 +260,14 @@ def _counting_env():
     return _ENVCLS[0]
 
 
+def _total(f):
+    """every implementation-side call is total: an exception is an observation, never a harness crash"""
+    try:
+        return f()
+    except Exception as e:  # noqa: BLE001
+        return ("exc", "other:" + type(e).__name__)
+
+
 class Impl:
     def __init__(self, kind, size, auto_reload, names, base):
         import jinja2
@@ -335,7 +343,7 @@ class Impl:
 
     def canon(self):
         env = self.env
-        active = self.loaders.index(env.loader)
+        active = self.loaders.index(env.loader) if env.loader in self.loaders else "?"
         if self.size == 0:
             if env.cache is not None:
                 raise core.HarnessError("cache_size=0 but env.cache is not None")
@@ -348,8 +356,8 @@ class Impl:
                     li = self.loaders.index(ref())
                 except Exception:  # noqa: BLE001 - a key of another shape is a cache-state mismatch, not a crash
                     li, name = "?", repr(key)
-                items.append((li, name, tmpl.render(), bool(tmpl.is_up_to_date)))
-            cache = tuple(items) if self.size > 0 else tuple(sorted(items))
+                items.append((li, name, _total(tmpl.render), _total(lambda: bool(tmpl.is_up_to_date))))
+            cache = tuple(items) if self.size > 0 else tuple(sorted(items, key=repr))
         return (self.contents(), active, cache)
 
 
@@ -536,9 +544,26 @@ def replay(detail):
 # shards
 
 
+def _unexpected_exc(x):
+    """class name of an exception the model never predicts, found anywhere inside an observation / canonical state"""
+    if isinstance(x, tuple):
+        if len(x) >= 2 and x[0] == "exc" and isinstance(x[1], str) and x[1].startswith("other:"):
+            return x[1][len("other:"):]
+        for y in x:
+            r = _unexpected_exc(y)
+            if r:
+                return r
+    return None
+
+
 def _classify(cfg, kind, hist, op, a, b):
     """stable narrow signature of a violation"""
     okind = op[0] if op else "init"
+    exc = _unexpected_exc(a)
+    if exc:
+        # get_template / select_template / a cached template's is_up_to_date raised something that is neither a
+        # result nor TemplateNotFound
+        return f"C25/unexpected-exception/{cfg[0]}/{exc}"
     if kind == "obs" and isinstance(a, tuple) and isinstance(b, tuple) and a[:len(b)] == b:
         extra = a[len(b):]
         if all(isinstance(x, tuple) and x and x[0] == "not-current" for x in extra):
